@@ -92,8 +92,18 @@ fn run_case(line: &str, home: &std::path::Path) -> String {
             let before = if opt(opts, "manifest").is_some() { manifest(base) } else { String::new() };
             std::env::set_current_dir(format!("{}/{}", base, cwdrel)).unwrap();
             let c: Vec<&str> = cors.split('|').collect();
+            // the configuration reaches the request path the way it does in the running server: through the environment and the start-up
+            // code.  Variables whose value is empty are left UNSET while set_default_values() and bootstrap() run (an absent variable is the
+            // common state), and given their empty value afterwards; on the unchanged code start-up does not touch a variable that is set
+            for v in CORS_VARS.iter() { std::env::remove_var(v); }
+            std::env::remove_var("RWS_CONFIG_CORS_ALLOW_ALL");
+            let mut empty: Vec<&str> = vec![];
             if c[0] == "all" { std::env::set_var("RWS_CONFIG_CORS_ALLOW_ALL", "true"); }
-            else { std::env::set_var("RWS_CONFIG_CORS_ALLOW_ALL", "false"); for (i, v) in CORS_VARS.iter().enumerate() { std::env::set_var(v, String::from_utf8(unhex(c[i+1])).unwrap()); } }
+            else { std::env::set_var("RWS_CONFIG_CORS_ALLOW_ALL", "false");
+                   for (i, v) in CORS_VARS.iter().enumerate() { let val = String::from_utf8(unhex(c[i+1])).unwrap(); if val.is_empty() { empty.push(v); } else { std::env::set_var(v, val); } } }
+            crate::entry_point::set_default_values();
+            crate::entry_point::bootstrap();
+            if c[0] != "all" { for v in empty { std::env::set_var(v, ""); } }
             let size: i64 = opt(opts, "size").map(|s| s.parse().unwrap()).unwrap_or(10000);
             std::env::set_var("RWS_CONFIG_REQUEST_ALLOCATION_SIZE_IN_BYTES", size.to_string());
             let mut m = Mock::new(req);
